@@ -1,1 +1,544 @@
-"""C05 rule spaces, part 4."""
+"""C05 rule spaces, part 4: the remaining exports of rules.common (_fuse_conv_affine,
+_remove_expand_before_binary_op, _fuse_hardswish, _gemm_to_matmul_add, _matmul_add_to_gemm)."""
+from __future__ import annotations
+
+import numpy as np
+
+from vf.props import c05_spaces as S
+from vf.props.c05_s3 import _w
+from vf.props.c05_spaces import Dim, MB, Skip, Space, arr
+
+# ---------------------------------------------------------------------------------------------------
+# Conv(x*s+o, w, b, pads=[0,0,0,0]) -> Conv ;  Conv(x, w, b)*s+o -> Conv
+# ---------------------------------------------------------------------------------------------------
+_AF_SHAPES = {"[]": [], "[1]": [1], "[1,1,1,1]": [1, 1, 1, 1], "[1,C,1,1]": None, "[1,1,1,1,1]": [1, 1, 1, 1, 1]}
+
+
+def _af_dims(rule):
+    return [
+        Dim("sshape", list(_AF_SHAPES)),
+        Dim("oshape", ["[]", "[1]", "[1,1,1,1]", "[1,1,1,1,1]", "[1,C,1,1]"]),
+        Dim("pads", ["zeros", "absent", "ones"]),
+        Dim("bias", ["yes", "no"]),
+        Dim("sval", [2.0, 0.0, -1.5], cost=1),
+        Dim("oval", [0.5, 0.0], cost=1),
+        Dim("kernel", [1, 3], cost=1),
+        Dim("rank", [4, 3], cost=1),
+        Dim("mul_order", ["xs", "sx"], cost=1), Dim("add_order", ["mo", "om"], cost=1),
+        Dim("group", [1, 2], cost=1), Dim("stride", [1, 2], cost=1), Dim("dilation", [1, 2], cost=1),
+        Dim("auto_pad", ["absent", "SAME_UPPER", "VALID"], cost=1),
+        Dim("dtype", ["f32", "f64"], cost=1),
+        S.d_ck(4), S.d_inter(2), S.D_DIMS, S.D_VI, S.d_opset(18, 13, 21, 23),
+    ]
+
+
+def _af_prune(p, rule):
+    if p["auto_pad"] != "absent" and p["pads"] == "ones":
+        return True
+    if p["ck"] in ("init_input@1", "input@1") and p["bias"] == "no":
+        return True
+    return False
+
+
+def _af_build(p, rule):
+    pre = rule["id"].startswith("affine_conv")
+    dt = p["dtype"]
+    d = S.npd(dt)
+    r = p["rank"]
+    ns = r - 2
+    g = p["group"]
+    C = 2 * g
+    M = 2 * g
+    mb = MB(p["opset"])
+    xs = [2, C] + [6, 5][:ns]
+    x = mb.inp("x", dt, S.shp(p, xs))
+    S.bind_like(mb, xs, variants=[{"N": 1, "?0": 1}])
+    k = S.kinds(p, 4)   # w, b, scale, offset
+    w = mb.const(_w(dt, [M, C // g] + [p["kernel"]] * ns), k[0], alts=[_w(dt, [M, C // g] + [p["kernel"]] * ns, salt=9)])
+    b = mb.const(_w(dt, [M], salt=3, scale=1.0), k[1], alts=[_w(dt, [M], salt=8, scale=1.0)]) if p["bias"] == "yes" else None
+    ch = C if pre else M
+
+    def shaped(name, v):
+        sh = _AF_SHAPES[name]
+        if sh is None:
+            sh = [1, ch] + [1] * ns
+            a = np.full(sh, v, dtype=d)
+            a.reshape(-1)[-1] += d(1)
+            return a
+        return np.full(sh, v, dtype=d)
+    sv = shaped(p["sshape"], p["sval"])
+    ov = shaped(p["oshape"], p["oval"])
+    s = mb.const(sv, k[2], alts=[sv + d(1)])
+    o = mb.const(ov, k[3], alts=[ov + d(1)])
+    attrs = {}
+    if p["pads"] == "zeros":
+        attrs["pads"] = [0] * (2 * ns)
+    elif p["pads"] == "ones":
+        attrs["pads"] = [1] * (2 * ns)
+    if p["auto_pad"] != "absent":
+        attrs["auto_pad"] = p["auto_pad"]
+    if g != 1:
+        attrs["group"] = g
+    if p["stride"] != 1:
+        attrs["strides"] = [p["stride"]] * ns
+    if p["dilation"] != 1:
+        attrs["dilations"] = [p["dilation"]] * ns
+
+    def affine(v):
+        m = mb.node("Mul", [v, s] if p["mul_order"] == "xs" else [s, v])
+        a = mb.node("Add", [m, o] if p["add_order"] == "mo" else [o, m])
+        return m, a
+    if pre:
+        m, a = affine(x)
+        y = mb.node("Conv", [a, w] + ([b] if b else []), **attrs)
+        mb.out(y)
+        S.expose(mb, p, [m, a])
+    else:
+        c = mb.node("Conv", [x, w] + ([b] if b else []), **attrs)
+        m, a = affine(c)
+        mb.out(a)
+        S.expose(mb, p, [c, m])
+    return mb
+
+
+def _af_near(p, rule):
+    return p["sshape"] == "[1,C,1,1]" or p["oshape"] == "[1,C,1,1]" or S.is_nonconst(p) or p["bias"] == "no" \
+        or (rule["id"].startswith("affine_conv") and p["pads"] != "zeros")
+
+
+def _af_klass(nd, p, rule):
+    keys = set(nd)
+    if keys & {"sshape", "oshape"} and keys <= {"sshape", "oshape", "sval", "oval", "kernel", "rank", "pads"}:
+        if all(nd.get(k, "[]") in ("[]", "[1,1,1,1]", "[1,1,1,1,1]") for k in ("sshape", "oshape")):
+            return "scale/offset=singleton-of-rank>1"
+        return ",".join(f"{k}={nd[k]}" for k in ("sshape", "oshape") if k in nd)
+    return None
+
+
+S.register(Space("conv_affine", _af_dims, _af_build, near=_af_near, prune=_af_prune, klass=_af_klass, accum=True,
+                 max_dev={"thorough": 1}),
+           rule_ids=["affine_conv_fusion_rule", "conv_affine_fusion_rule"])
+
+
+# ---------------------------------------------------------------------------------------------------
+# BinaryOp(Expand(x, shape), y) -> BinaryOp(x, y)       (38 rules, one per op and operand position)
+# ---------------------------------------------------------------------------------------------------
+# (x shape, expand target, y shape)
+_EX_CASES = {
+    "y-supplies": ([3], [2, 3], [2, 3]),
+    "x1-y-supplies": ([1, 3], [2, 3], [2, 3]),
+    "y-too-small": ([3], [2, 3], [3]),
+    "lead-ones": ([3], [1, 1, 3], [3]),
+    "lead-ones-y2d": ([3], [1, 1, 3], [2, 3]),
+    "noop-expand": ([2, 3], [2, 3], [1]),
+    "x-scalar": ([], [2, 3], [2, 3]),
+    "shape-ones": ([3], [1, 3], [2, 3]),
+    "cross": ([2, 1], [2, 3], [1, 3]),
+    "cross2": ([3], [2, 3], [2, 1]),
+    "shape-shorter": ([2, 3], [3], [2, 3]),
+    "y-scalar": ([1, 3], [2, 3], []),
+    "size0": ([1], [0], [0]),
+    "x1-e2-y1": ([1, 3], [2, 3], [1, 3]),
+}
+_EX_OPS = {
+    # op: (dtypes, attribute variants)
+    "Add": (["f32", "i64"], [{}]), "Sub": (["f32", "i64"], [{}]), "Mul": (["f32", "i64"], [{}]),
+    "Div": (["f32", "i64"], [{}]), "Pow": (["f32"], [{}]),
+    "And": (["bool"], [{}]), "Or": (["bool"], [{}]), "Xor": (["bool"], [{}]),
+    "BitShift": (["u8", "u32"], [{"direction": "LEFT"}, {"direction": "RIGHT"}]),
+    "BitwiseAnd": (["i32", "u8"], [{}]), "BitwiseOr": (["i32", "u8"], [{}]), "BitwiseXor": (["i32", "u8"], [{}]),
+    "Equal": (["f32", "i64"], [{}]), "Greater": (["f32", "i64"], [{}]), "GreaterOrEqual": (["f32", "i64"], [{}]),
+    "Less": (["f32", "i64"], [{}]), "LessOrEqual": (["f32", "i64"], [{}]),
+    "Mod": (["i64", "f32"], [{}, {"fmod": 1}]),
+    "PRelu": (["f32"], [{}]),
+}
+
+
+def _ex_parse(rule):
+    name = rule["id"].split("/")[1]          # ExpandFirst_Add
+    side, op = name.split("_", 1)
+    return op, (0 if side == "ExpandFirst" else 1)
+
+
+def _ex_dims(rule):
+    op, _ = _ex_parse(rule)
+    dts, attrs = _EX_OPS.get(op, (["f32"], [{}]))
+    return [
+        Dim("case", list(_EX_CASES)),
+        # how the expand target reaches the rule: constant; runtime input with the Expand output annotated;
+        # runtime input, only the binary op's output annotated; nothing annotated
+        Dim("ssrc", ["const", "dyn-expand-vi", "dyn-out-vi", "dyn-no-vi"]),
+        Dim("attrs", list(range(len(attrs)))),
+        Dim("dtype", dts[:1], dts),
+        # the leading axis of x / y / expand target: static, named symbolic, unnamed symbolic
+        Dim("lead", ["static", "named-same", "named-differ", "unnamed"]),
+        # runtime size of y's leading axis when it is symbolic: as declared, or 1 (then y broadcasts)
+        Dim("rt", ["as-declared", "y-lead-1"]),
+        S.d_ck(1), S.d_inter(1), S.d_opset(18, 13, 21, 23),
+    ]
+
+
+def _ex_prune(p, rule):
+    op, _ = _ex_parse(rule)
+    if p["ssrc"] != "const" and p["ck"] != "init":
+        return True
+    if p["lead"] == "static" and p["rt"] != "as-declared":
+        return True
+    xs, es, ys = _EX_CASES[p["case"]]
+    if p["lead"] != "static" and (not ys or not es or p["case"] == "size0"):
+        return True
+    if op.startswith("Bitwise") and p["opset"] < 18:
+        return True
+    if p["dtype"] == "f32" and op == "Mod" and p["attrs"] == 0:
+        return True
+    return False
+
+
+def _ex_build(p, rule):
+    op, side = _ex_parse(rule)
+    dts, attr_variants = _EX_OPS[op]
+    attrs = attr_variants[p["attrs"]]
+    dt = p["dtype"]
+    xs, es, ys = [list(v) for v in _EX_CASES[p["case"]]]
+    mb = MB(p["opset"])
+    lead = p["lead"]
+    # declared shapes: only the leading axis of y and of the expand output may be symbolic (x keeps its static
+    # shape; when x has the full rank and its leading dim equals the target it becomes symbolic as well)
+    def sym(shape, name, full_rank):
+        if lead == "static" or not shape or len(shape) < full_rank:
+            return list(shape)
+        s = list(shape)
+        if s[0] == 1:
+            return s
+        s[0] = name if lead != "unnamed" else None
+        return s
+    full = max(len(es), len(xs))
+    yname = "B" if lead in ("named-same", "unnamed") else "C"
+    x_decl = sym(xs, "B", full) if len(xs) == full and xs and xs[0] == (es[0] if len(es) == full else None) else list(xs)
+    y_decl = sym(ys, yname, len(ys)) if len(ys) >= 1 and ys[0] != 1 else list(ys)
+    e_decl = sym(list(np.broadcast_shapes(tuple(xs), tuple(es))), "B", 1)
+    xdt = dt
+    ydt = dt
+    if op == "Pow":
+        ydt = dt
+    x = mb.inp("x", xdt, x_decl)
+    y = mb.inp("y", ydt, y_decl)
+    ylead = 1 if p["rt"] == "y-lead-1" else (ys[0] if ys else 1)
+    b0 = {"B": es[0] if len(es) == full and es else (xs[0] if xs else 1), "C": ys[0] if ys else 1, "?0": None}
+    # feeds: x by declared/static shape, y possibly with leading 1
+    def feeds_shape(shape, decl, lead_val):
+        return [lead_val if (i == 0 and not isinstance(dd, int)) else s for i, (s, dd) in enumerate(zip(shape, decl))]
+    xsh = feeds_shape(xs, x_decl, xs[0] if xs else 1)
+    ysh = feeds_shape(ys, y_decl, ylead)
+    from vf.props.c05_mb import fill
+    vals_x = [fill(xdt, xsh, k=i, salt=0) for i in range(3)]
+    vals_y = [fill(ydt, ysh, k=i, salt=1) for i in range(3)]
+    if op in ("Div", "Mod"):
+        vals_y = [np.where(v == 0, np.ones_like(v), v) for v in vals_y] if side == 0 else vals_y
+        vals_x = [np.where(v == 0, np.ones_like(v), v) for v in vals_x] if side == 1 else vals_x
+    if op == "BitShift":
+        vals_y = [v % 5 for v in vals_y] if side == 0 else vals_y
+        vals_x = [v % 5 for v in vals_x] if side == 1 else vals_x
+    if op == "Pow":
+        vals_x = [np.abs(v) + 0.5 for v in vals_x] if side == 0 else [np.clip(v, -2, 2) for v in vals_x]
+        vals_y = [np.clip(v, -2, 2) for v in vals_y] if side == 0 else [np.abs(v) + 0.5 for v in vals_y]
+    mb._feed["x"] = ("alts", [v.astype(S.npd(xdt)) for v in vals_x])
+    mb._feed["y"] = ("alts", [v.astype(S.npd(ydt)) for v in vals_y])
+    if p["ssrc"] == "const":
+        sh = mb.const(arr("i64", es), S.kinds(p, 1)[0], alts=[arr("i64", [1] * len(es)), arr("i64", es)])
+    else:
+        sh = mb.inp("shape", "i64", [len(es)], values=[arr("i64", es)])
+    e = mb.node("Expand", [x, sh])
+    out = mb.node(op, [e, y] if side == 0 else [y, e], **attrs)
+    out_shape = list(np.broadcast_shapes(tuple(np.broadcast_shapes(tuple(xs), tuple(es))), tuple(ys)))
+    bool_out = op in ("Equal", "Greater", "GreaterOrEqual", "Less", "LessOrEqual")
+    odt = "bool" if bool_out else dt
+    o_decl = list(out_shape)
+    if lead != "static" and o_decl and o_decl[0] != 1:
+        o_decl[0] = "B" if lead in ("named-same", "named-differ") else None
+    mb.out(out, odt, o_decl)
+    if p["ssrc"] == "dyn-expand-vi":
+        mb.vi_override[e] = (dt, e_decl)
+    elif p["ssrc"] in ("dyn-out-vi", "dyn-no-vi"):
+        mb.vi_drop.add(e)
+        if p["ssrc"] == "dyn-no-vi":
+            mb.out_types[out] = (odt, [None] * len(o_decl))
+    S.expose(mb, p, [e])
+    return mb
+
+
+def _ex_near(p, rule):
+    xs, es, ys = _EX_CASES[p["case"]]
+    try:
+        with_e = np.broadcast_shapes(tuple(np.broadcast_shapes(tuple(xs), tuple(es))), tuple(ys))
+        without = np.broadcast_shapes(tuple(xs), tuple(ys))
+    except ValueError:
+        return True
+    return tuple(with_e) != tuple(without) or p["rt"] != "as-declared" or S.is_nonconst(p) or p["ssrc"] == "dyn-no-vi"
+
+
+def _ex_klass(nd, p, rule):
+    if "attrs" in nd and set(nd) <= {"attrs", "dtype", "case"}:
+        op, _ = _ex_parse(rule)
+        return "attr=" + ",".join(f"{k}:{v}" for k, v in _EX_OPS[op][1][p["attrs"]].items())
+    return None
+
+
+S.register(Space("expand_before_binary_op", _ex_dims, _ex_build, near=_ex_near, prune=_ex_prune, klass=_ex_klass),
+           prefixes=["expand_before_binary_op_rules/"])
+
+
+# ---------------------------------------------------------------------------------------------------
+# HardSigmoid / HardSwish fusions (rule set built with commute=True: 4 + 2 + 2 rule objects)
+# ---------------------------------------------------------------------------------------------------
+# constant classes: exact; inside the rule's own rtol=1e-4; >= 100x outside the comparison tolerance
+_HS_OFF = {"exact": 0.0, "in-tol": 0.8e-4, "out-tol": 1.1e-3}
+
+
+def _hs_dims(rule):
+    name = rule["id"].split("/")[1].split("~")[0]
+    if name == "HardSwishFusionFromHardSigmoid":
+        return [
+            Dim("alpha", ["1/6", "absent", "0.2", "1/6+1e-6", "1/6*(1+2e-3)"]),
+            Dim("beta", ["0.5", "absent", "0.5+4e-6", "0.5005"]),
+            Dim("mul_order", ["hx", "xh"]),
+            Dim("other", ["same-x", "other-tensor"]),
+            Dim("dtype", ["f32", "f64"], ["f32", "f64", "f16"]),
+            S.d_inter(1), S.D_DIMS, S.D_VI, S.d_opset(18, 13, 14, 21, 23),
+        ]
+    return [
+        Dim("bias", list(_HS_OFF)), Dim("cmin", ["exact", "tiny", "out-tol", "negzero"]),
+        Dim("cmax", list(_HS_OFF)), Dim("div", list(_HS_OFF)),
+        Dim("add_order", ["xb", "bx"]), Dim("mul_order", ["cx", "xc"]),
+        Dim("other", ["same-x", "other-tensor"]),
+        Dim("cshape", ["[]", "[1]-bias-div", "[1,1,1]-bias"]),
+        Dim("dtype", ["f32", "f64"], ["f32", "f64", "f16"]),
+        S.d_ck(4), S.d_inter(3), S.D_DIMS, S.D_VI, S.d_opset(18, 13, 14, 21, 23),
+    ]
+
+
+def _hs_val(base, klass, sign=1):
+    return base * (1 + sign * _HS_OFF[klass]) if base else _HS_OFF[klass]
+
+
+def _hs_build(p, rule):
+    name = rule["id"].split("/")[1].split("~")[0]
+    dt = p["dtype"]
+    d = S.npd(dt)
+    mb = MB(p["opset"])
+    xs = [2, 3]
+    x = mb.inp("x", dt, S.shp(p, xs))
+    S.bind_like(mb, xs, variants=[{"N": 1, "?0": 1}])
+    other = x if p["other"] == "same-x" else mb.inp("z", dt, xs)
+    if name == "HardSwishFusionFromHardSigmoid":
+        attrs = {}
+        a = {"1/6": 1 / 6, "0.2": 0.2, "1/6+1e-6": 1 / 6 + 1e-6, "1/6*(1+2e-3)": (1 / 6) * 1.002}.get(p["alpha"])
+        b = {"0.5": 0.5, "0.5+4e-6": 0.5 + 4e-6, "0.5005": 0.5005}.get(p["beta"])
+        if a is not None:
+            attrs["alpha"] = float(a)
+        if b is not None:
+            attrs["beta"] = float(b)
+        h = mb.node("HardSigmoid", [x], **attrs)
+        mb.out(mb.node("Mul", [h, other] if p["mul_order"] == "hx" else [other, h]))
+        S.expose(mb, p, [h])
+        return mb
+    k = S.kinds(p, 4)   # bias, cmin, cmax, div
+    bshape = {"[]": [], "[1]-bias-div": [1], "[1,1,1]-bias": [1, 1, 1]}[p["cshape"]]
+    dshape = [1] if p["cshape"] == "[1]-bias-div" else []
+    bias = mb.const(np.full(bshape, _hs_val(3.0, p["bias"]), dtype=d), k[0], alts=[np.full(bshape, 1.0, dtype=d)])
+    cmin_v = {"exact": 0.0, "tiny": 1e-9, "out-tol": 1e-2, "negzero": -0.0}[p["cmin"]]
+    cmin = mb.const(np.array(cmin_v, dtype=d), k[1], alts=[np.array(1.0, dtype=d)])
+    cmax = mb.const(np.array(_hs_val(6.0, p["cmax"], -1), dtype=d), k[2], alts=[np.array(4.0, dtype=d)])
+    div = mb.const(np.full(dshape, _hs_val(6.0, p["div"]), dtype=d), k[3], alts=[np.full(dshape, 3.0, dtype=d)])
+    add = mb.node("Add", [x, bias] if p["add_order"] == "xb" else [bias, x])
+    clip = mb.node("Clip", [add, cmin, cmax])
+    if name == "HardSwishFusion":
+        mul = mb.node("Mul", [clip, other] if p["mul_order"] == "cx" else [other, clip])
+        mb.out(mb.node("Div", [mul, div]))
+        S.expose(mb, p, [add, clip, mul])
+    else:
+        if p["mul_order"] != "cx" or p["other"] != "same-x":
+            raise Skip("no Mul in the HardSigmoid pattern")
+        mb.out(mb.node("Div", [clip, div]))
+        S.expose(mb, p, [add, clip, None])
+    return mb
+
+
+def _hs_near(p, rule):
+    name = rule["id"].split("/")[1].split("~")[0]
+    if name == "HardSwishFusionFromHardSigmoid":
+        return p["alpha"] != "1/6" or p["beta"] != "0.5" or p["other"] != "same-x"
+    return any(p[k] != "exact" for k in ("bias", "cmax", "div")) or p["cmin"] not in ("exact", "negzero") \
+        or p["other"] != "same-x" or S.is_nonconst(p)
+
+
+def _hs_klass(nd, p, rule):
+    ks = set(nd)
+    tol = {k for k in ("bias", "cmax", "div") if nd.get(k) == "in-tol"}
+    if tol and ks <= {"bias", "cmax", "div", "dtype", "add_order", "mul_order"}:
+        return "const=within-rule-rtol-1e-4"
+    if ks and ks <= {"alpha", "beta", "dtype", "mul_order"} and (nd.get("alpha") == "1/6+1e-6" or nd.get("beta") == "0.5+4e-6"):
+        return "attr=within-np.isclose"
+    return None
+
+
+S.register(Space("hardswish", _hs_dims, _hs_build, near=_hs_near, klass=_hs_klass, max_dev={"thorough": 1}),
+           prefixes=["fuse_hardswish_rules/"])
+
+
+# ---------------------------------------------------------------------------------------------------
+# Reshape(Gemm(Reshape(a), b, c, alpha=1, beta=1)) -> Add(MatMul(a, b), c)
+# ---------------------------------------------------------------------------------------------------
+_GM_CASES = {
+    # a shape, reshape target, b shape, final shape
+    "3d": ([2, 3, 4], [6, 4], [4, 5], [2, 3, 5]),
+    "2d-same": ([6, 4], [6, 4], [4, 5], [6, 5]),
+    "3d-keep2d": ([2, 3, 4], [6, 4], [4, 5], [6, 5]),
+    "4d": ([2, 1, 3, 4], [6, 4], [4, 5], [2, 1, 3, 5]),
+    "regroup": ([3, 2, 4], [6, 4], [4, 5], [2, 3, 5]),
+}
+_GM_C = {"[N]": [5], "[M,N]": [6, 5], "[1,N]": [1, 5], "[1]": [1], "[]": [], "[M,1]": [6, 1], "absent": None}
+
+
+def _gm_dims(rule):
+    return [
+        Dim("case", list(_GM_CASES)),
+        Dim("C", ["[N]", "[M,N]", "[1,N]", "[]", "[M,1]", "absent"], list(_GM_C)),
+        Dim("alpha", ["1.0", "absent", "2.0", "1+1e-6"]), Dim("beta", ["1.0", "absent", "0.5", "1+1e-6"]),
+        Dim("transA", ["absent", 0, 1]), Dim("transB", ["absent", 0, 1]),
+        Dim("dtype", ["f32"], ["f32", "f64"]),
+        Dim("csrc", ["init", "input"], cost=1),
+        S.d_ck(2), S.d_inter(2), S.D_DIMS, S.D_VI, S.d_opset(18, 13, 21, 23),
+    ]
+
+
+def _gm_prune(p, rule):
+    if p["transA"] == 1:
+        return True    # would need a transposed reshape target; covered by transB
+    return False
+
+
+def _gm_build(p, rule):
+    a, ra, b, rc = [list(v) for v in _GM_CASES[p["case"]]]
+    dt = p["dtype"]
+    d = S.npd(dt)
+    mb = MB(p["opset"])
+    A = mb.inp("a", dt, S.shp(p, a))
+    S.bind_like(mb, a)
+    bs = b[::-1] if p["transB"] == 1 else b
+    B = mb.inp("b", dt, bs)
+    k = S.kinds(p, 2)
+    sa = mb.const(arr("i64", ra), k[0], alts=[arr("i64", ra)])
+    r1 = mb.node("Reshape", [A, sa])
+    ins = [r1, B]
+    cs = _GM_C[p["C"]]
+    if cs is not None:
+        cv = _w(dt, cs, salt=3, scale=1.0)
+        ins.append(mb.const(cv, "init") if p["csrc"] == "init" else mb.inp("c", dt, cs))
+    attrs = {}
+    for nm in ("alpha", "beta"):
+        if p[nm] != "absent":
+            attrs[nm] = {"1.0": 1.0, "2.0": 2.0, "0.5": 0.5, "1+1e-6": 1 + 1e-6}[p[nm]]
+    for nm in ("transA", "transB"):
+        if p[nm] != "absent":
+            attrs[nm] = int(p[nm])
+    gm = mb.node("Gemm", ins, **attrs)
+    sc = mb.const(arr("i64", rc), k[1], alts=[arr("i64", [int(np.prod(rc))])])
+    mb.out(mb.node("Reshape", [gm, sc]))
+    S.expose(mb, p, [r1, gm])
+    return mb
+
+
+def _gm_near(p, rule):
+    return p["alpha"] != "1.0" or p["beta"] != "1.0" or p["transB"] == 1 or p["C"] in ("[M,N]", "[M,1]", "absent") \
+        or S.is_nonconst(p) or p["case"] == "regroup"
+
+
+def _gm_klass(nd, p, rule):
+    ks = set(nd)
+    if "C" in ks and ks <= {"C", "case"}:
+        return "C=" + nd["C"]
+    if "transB" in ks and ks <= {"transB", "C", "case"}:
+        return "transB=1"
+    return None
+
+
+S.register(Space("gemm_to_matmul_add", _gm_dims, _gm_build, near=_gm_near, prune=_gm_prune, klass=_gm_klass, accum=True),
+           rule_ids=["gemm_to_matmul_add_rule"])
+
+
+# ---------------------------------------------------------------------------------------------------
+# Add(MatMul(a, b), c) [with Transpose(perm=[1,0]) on a and/or b] -> Gemm
+# ---------------------------------------------------------------------------------------------------
+_MA_C = {"[N]": [5], "[M,N]": [3, 5], "[1,N]": [1, 5], "[M,1]": [3, 1], "[1]": [1], "[]": [],
+         "[2,M,N]": [2, 3, 5], "[1,M,N]": [1, 3, 5], "[1,1,N]": [1, 1, 5], "[4M,N]-with-M=1": [4, 5]}
+
+
+def _ma_dims(rule):
+    return [
+        Dim("C", list(_MA_C)),
+        Dim("arank", [2, 3, 1]), Dim("brank", [2, 3, 1]),
+        Dim("perm", ["[1,0]", "absent"]),
+        Dim("add_order", ["mc", "cm"]),
+        Dim("csrc", ["init", "input"]),
+        Dim("dtype", ["f32"], ["f32", "f64", "i32"]),
+        S.d_inter(3), S.D_DIMS, S.D_VI, S.d_opset(18, 13, 21, 23),
+    ]
+
+
+def _ma_flags(rule):
+    rid = rule["id"]
+    return ("transpose_a_" in rid or "transpose_ab_" in rid), ("transpose_b_" in rid or "transpose_ab_" in rid)
+
+
+def _ma_prune(p, rule):
+    ta, tb = _ma_flags(rule)
+    if (ta and p["arank"] != 2) or (tb and p["brank"] != 2):
+        return p["arank"] != 2 and ta or p["brank"] != 2 and tb
+    if not ta and not tb and p["perm"] != "[1,0]":
+        return True
+    if p["arank"] == 1 and p["brank"] == 1:
+        return True
+    return False
+
+
+def _ma_build(p, rule):
+    ta, tb = _ma_flags(rule)
+    dt = p["dtype"]
+    mb = MB(p["opset"])
+    M, K, N = (1 if p["C"] == "[4M,N]-with-M=1" else 3), 4, 5
+    ash = {2: [M, K], 3: [2, M, K], 1: [K]}[p["arank"]]
+    bsh = {2: [K, N], 3: [2, K, N], 1: [K]}[p["brank"]]
+    if ta:
+        ash = ash[::-1]
+    if tb:
+        bsh = bsh[::-1]
+    a = mb.inp("a", dt, S.shp(p, ash, sym_axes=(1,) if ta else (0,)))
+    S.bind_like(mb, ash, sym_axes=(1,) if ta else (0,))
+    b = mb.inp("b", dt, bsh)
+    pa = {} if p["perm"] == "absent" else {"perm": [1, 0]}
+    a2 = mb.node("Transpose", [a], **pa) if ta else a
+    b2 = mb.node("Transpose", [b], **pa) if tb else b
+    mm = mb.node("MatMul", [a2, b2])
+    cs = list(_MA_C[p["C"]])
+    cv = _w(dt, cs, salt=3, scale=1.0)
+    c = mb.const(cv, "init") if p["csrc"] == "init" else mb.inp("c", dt, cs)
+    mb.out(mb.node("Add", [mm, c] if p["add_order"] == "mc" else [c, mm]))
+    S.expose(mb, p, [mm, a2 if ta else None, b2 if tb else None])
+    return mb
+
+
+def _ma_near(p, rule):
+    return p["C"] in ("[2,M,N]", "[1,M,N]", "[1,1,N]", "[4M,N]-with-M=1") or p["arank"] != 2 or p["brank"] != 2 \
+        or p["perm"] == "absent" or p["add_order"] == "cm"
+
+
+def _ma_klass(nd, p, rule):
+    if "C" in nd and set(nd) <= {"C", "csrc", "dtype"}:
+        return "C=" + nd["C"]
+    return None
+
+
+S.register(Space("matmul_add_to_gemm", _ma_dims, _ma_build, near=_ma_near, prune=_ma_prune, klass=_ma_klass, accum=True),
+           rule_ids=["matmul_add_to_gemm_rule", "transpose_a_matmul_add_to_gemm_rule",
+                     "transpose_b_matmul_add_to_gemm_rule", "transpose_ab_matmul_add_to_gemm_rule"])
